@@ -101,7 +101,7 @@ func Plan(tier string) *harness.Plan {
 	if tier == "thorough" {
 		// every configuration with at most 2 deviations; plus the 5-node patterns and two-edit seed neighbourhoods
 		k = 2
-		t.PN, t.HugePN, t.LHuge, t.SK, t.Budget = 5, 4, 3, 2, 25*time.Minute
+		t.PN, t.HugePN, t.LHuge, t.SK, t.LateSKDelta, t.Budget = 5, 4, 3, 2, 1, 25*time.Minute
 	}
 	sp := bx.NewSpace(t)
 	cfgs := configs(k)
